@@ -17,6 +17,7 @@ Definition bq_ok (b : bq) : bool :=
   | BPQ i ne j => forallb rstep_ok i && negb (steps_vg i) && (forallb rstep_ok j && negb (steps_vg j))
   | BX i body => forallb rstep_ok i && negb (steps_vg i) && re_plain body
   | BCL lit o i => forallb rstep_ok i && negb (steps_vg i) && lit_ok lit
+  | BLL l ne i => forallb rstep_ok i && negb (steps_vg i) && litv_ok l
   end.
 Definition eq_text (ne : bool) : list N := if ne then [33; 61] else [61; 61].
 Definition bq_tokens (pos : nat) (b : bq) : list token :=
@@ -36,6 +37,8 @@ Definition bq_tokens (pos : nat) (b : bq) : list token :=
   | BX i body => rx39_tokens pos i body ++ [TText pos (pos + (1 + List.length (render_steps i) + 3 + List.length body + 1)); TAct 26]
   | BCL lit o i => lcmp39_tokens pos lit o i ++
                    [TText pos (pos + (List.length lit + List.length (op_text o) + 1 + List.length (render_steps i))); TAct 26]
+  | BLL l ne i => litv_tokens pos l ++ [TAct 35] ++ left43_tokens (pos + List.length (litv_text l) + 2) i ++ [TAct (if ne then 29%nat else 28%nat)] ++
+                  [TText pos (pos + (List.length (litv_text l) + 2 + 1 + List.length (render_steps i))); TAct 26]
   end.
 
 Lemma bq_text_len b : List.length (bq_text b) =
@@ -50,19 +53,22 @@ Lemma bq_text_len b : List.length (bq_text b) =
   | BPQ i ne j => (1 + List.length (render_steps i) + 2 + (1 + List.length (render_steps j)))%nat
   | BX i body => (1 + List.length (render_steps i) + 3 + List.length body + 1)%nat
   | BCL lit o i => (List.length lit + List.length (op_text o) + 1 + List.length (render_steps i))%nat
+  | BLL l ne i => (List.length (litv_text l) + 2 + 1 + List.length (render_steps i))%nat
   end.
-Proof. destruct b as [i|i|i o lit|i ne l|j|j|i o j|i ne j|i body|lit o i]; cbn [bq_text List.length]; rewrite ?app_length; cbn [List.length]; rewrite ?app_length; cbn [List.length]; try lia; destruct ne; cbn [List.length]; lia. Qed.
+Proof. destruct b as [i|i|i o lit|i ne l|j|j|i o j|i ne j|i body|lit o i|l ne i]; cbn [bq_text List.length]; rewrite ?app_length; cbn [List.length]; rewrite ?app_length; cbn [List.length]; try lia; destruct ne; cbn [List.length]; lia. Qed.
 Lemma bq_head b : bq_ok b = true -> exists x r, bq_text b = x :: r /\ x <> 32.
 Proof.
-  intros Hb. destruct b as [i|i|i o lit|i ne l|j|j|i o j|i ne j|i body|lit o i]; cbn [bq_text]; try (eexists _, _; (split; [reflexivity|discriminate])).
-  cbn [bq_ok] in Hb. apply andb_true_iff in Hb. destruct Hb as [_ Hl]. destruct (lit_head lit Hl) as (c1 & r & E & H32 & _). rewrite E. cbn [app].
-  eexists _, _. split; [reflexivity|exact H32].
+  intros Hb. destruct b as [i|i|i o lit|i ne l|j|j|i o j|i ne j|i body|lit o i|l ne i]; cbn [bq_text]; try (eexists _, _; (split; [reflexivity|discriminate])).
+  - cbn [bq_ok] in Hb. apply andb_true_iff in Hb. destruct Hb as [_ Hl]. destruct (lit_head lit Hl) as (c1 & r & E & H32 & _). rewrite E. cbn [app].
+    eexists _, _. split; [reflexivity|exact H32].
+  - cbn [bq_ok] in Hb. apply andb_true_iff in Hb. destruct Hb as [_ Hl]. destruct (litv_head l Hl) as (c1 & r & E & H32 & _). rewrite E. cbn [app].
+    eexists _, _. split; [reflexivity|exact H32].
 Qed.
 
 Lemma ev35_bq b c t pos : bq_ok b = true -> qend c ->
   evG (PRef 35) (bq_text b ++ c :: t) pos (POk (c :: t) (pos + List.length (bq_text b)) (bq_tokens pos b)).
 Proof.
-  intros Hb Hq. rewrite bq_text_len. destruct b as [i|i|i o lit|i ne l|j|j|i o j|i ne j|i body|lit o i]; cbn [bq_ok bq_text bq_tokens app] in *.
+  intros Hb Hq. rewrite bq_text_len. destruct b as [i|i|i o lit|i ne l|j|j|i o j|i ne j|i body|lit o i|l ne i]; cbn [bq_ok bq_text bq_tokens app] in *.
   - eapply ev_conv.
     + eapply ev_ref; [reflexivity|].
       apply ev_alt_r; [apply ev_seq_fail; eapply ev_ref; [reflexivity|]; apply ev_seq_fail; apply (ev_lit_fail G [40]); reflexivity|].
@@ -301,6 +307,63 @@ Proof.
       replace (pos + List.length lit + List.length (op_text o) + 1 + List.length (render_steps i))%nat
         with (pos + (List.length lit + List.length (op_text o) + 1 + List.length (render_steps i)))%nat by lia.
       rewrite <- !app_assoc. reflexivity.
+  - (* 'text' == @ steps, true != @ steps, null == @ steps *)
+    apply andb_true_iff in Hb. destruct Hb as [Hb Hl]. apply andb_true_iff in Hb. destruct Hb as [Hs _].
+    set (L := List.length (render_steps i)). set (M := List.length (litv_text l)).
+    destruct (litv_head l Hl) as (x & xr & Ex & Hx32 & Hxs & Hxd).
+    assert (H40 : forall r0, strip_prefix [40] (litv_text l ++ r0) = None).
+    { intros r0. rewrite Ex. cbn [app strip_prefix]. destruct (40 =? x) eqn:E40; [|reflexivity]. apply N.eqb_eq in E40. subst x.
+      destruct l as [q body|b0 sp|sp]; cbn [litv_text] in Ex.
+      - cbn [litv_ok] in Hl. apply andb_true_iff in Hl. destruct Hl as [Hq0 _]. inversion Ex; subst q. discriminate Hq0.
+      - destruct b0; destruct sp as [|[|sp]]; discriminate Ex.
+      - destruct sp as [|[|sp]]; discriminate Ex. }
+    assert (Hgen : forall c1 act, (c1 = 33 /\ act = 29%nat \/ c1 = 61 /\ act = 28%nat) ->
+              evG (PRef 35) (litv_text l ++ c1 :: 61 :: 64 :: render_steps i ++ c :: t) pos
+                  (POk (c :: t) (pos + (M + 2 + 1 + L))
+                       (litv_tokens pos l ++ [TAct 35] ++ left43_tokens (pos + M + 2) i ++ [TAct act] ++ [TText pos (pos + (M + 2 + 1 + L)); TAct 26]))).
+    { intros c1 act Hcase.
+      assert (Hc32 : c1 <> 32) by (destruct Hcase as [[E _]|[E _]]; subst c1; discriminate).
+      assert (Eright : evG (PSeq (PRef 58) (PSeq (PRef 40) (PAct act))) (64 :: render_steps i ++ c :: t) (pos + M + 2)
+                           (POk (c :: t) (pos + M + 2 + 1 + L) (left43_tokens (pos + M + 2) i ++ [TAct act]))).
+      { eapply ev_conv.
+        - eapply ev_seq_ok; [apply ev_space_stop; discriminate| |reflexivity].
+          eapply ev_seq_ok; [apply (rpath40 i t c Hq Hs)|apply ev_act|reflexivity].
+        - cbn [app]. reflexivity. }
+      assert (Eleft : evG (PRef 40) (litv_text l ++ c1 :: 61 :: 64 :: render_steps i ++ c :: t) pos
+                          (POk (c1 :: 61 :: 64 :: render_steps i ++ c :: t) (pos + M) (litv_tokens pos l ++ [TAct 35]))).
+      { eapply ev_ref; [reflexivity|]. apply ev_alt_l. eapply ev_seq_ok; [apply (ev_rule42_litv l c1 _ pos Hl)|apply ev_act|reflexivity]. }
+      destruct Hcase as [[E1 E2]|[E1 E2]]; subst c1 act.
+      - eapply ev_conv.
+        + eapply ev_ref; [reflexivity|].
+          apply ev_alt_r; [apply ev_seq_fail; eapply ev_ref; [reflexivity|]; apply ev_seq_fail; apply (ev_lit_fail G [40]); apply H40|].
+          apply ev_alt_l. eapply ev_seq_ok; [apply ev_cap|apply ev_act|reflexivity].
+          eapply ev_ref; [reflexivity|]. apply ev_alt_l.
+          eapply ev_seq_ok; [exact Eleft| |reflexivity].
+          eapply ev_seq_ok; [apply ev_space_stop; exact Hc32| |reflexivity].
+          apply ev_alt_r; [apply ev_seq_fail; apply (ev_lit_fail G [61; 61]); reflexivity|].
+          eapply ev_seq_ok; [apply (ev_lit_ok G [33; 61]); reflexivity|exact Eright|reflexivity].
+        + cbn [List.length Nat.add]. f_equal; try lia.
+          replace (pos + M + 2 + 1 + L)%nat with (pos + (M + 2 + 1 + L))%nat by lia.
+          repeat (progress (cbn [app]) || rewrite <- app_assoc || rewrite app_nil_r). reflexivity.
+      - eapply ev_conv.
+        + eapply ev_ref; [reflexivity|].
+          apply ev_alt_r; [apply ev_seq_fail; eapply ev_ref; [reflexivity|]; apply ev_seq_fail; apply (ev_lit_fail G [40]); apply H40|].
+          apply ev_alt_l. eapply ev_seq_ok; [apply ev_cap|apply ev_act|reflexivity].
+          eapply ev_ref; [reflexivity|]. apply ev_alt_l.
+          eapply ev_seq_ok; [exact Eleft| |reflexivity].
+          eapply ev_seq_ok; [apply ev_space_stop; exact Hc32| |reflexivity].
+          apply ev_alt_l.
+          eapply ev_seq_ok; [apply (ev_lit_ok G [61; 61]); reflexivity|exact Eright|reflexivity].
+        + cbn [List.length Nat.add]. f_equal; try lia.
+          replace (pos + M + 2 + 1 + L)%nat with (pos + (M + 2 + 1 + L))%nat by lia.
+          repeat (progress (cbn [app]) || rewrite <- app_assoc || rewrite app_nil_r). reflexivity. }
+    fold L M. destruct ne.
+    + replace ((litv_text l ++ [33; 61] ++ 64 :: render_steps i) ++ c :: t) with (litv_text l ++ 33 :: 61 :: 64 :: render_steps i ++ c :: t)
+        by (rewrite <- !app_assoc; cbn [app]; rewrite <- ?app_assoc; reflexivity).
+      apply (Hgen 33 29%nat). left. split; reflexivity.
+    + replace ((litv_text l ++ [61; 61] ++ 64 :: render_steps i) ++ c :: t) with (litv_text l ++ 61 :: 61 :: 64 :: render_steps i ++ c :: t)
+        by (rewrite <- !app_assoc; cbn [app]; rewrite <- ?app_assoc; reflexivity).
+      apply (Hgen 61 28%nat). right. split; reflexivity.
 Qed.
 
 (* ---------- conjunctions ---------- *)
@@ -506,6 +569,7 @@ Section QueryExec.
     | BPQ i ne j => let q := QCmp (cmp_left cfg i) (CP (root_pq cfg j) true) CDeepEq in if ne then QNot q else q
     | BX i body => rx_query cfg i body
     | BCL lit o i => cmp_query cfg i (mirror_op o) (qnum lit)
+    | BLL l ne i => if ne then QNot (lit_cmp i l) else lit_cmp i l
     end.
 
   Lemma unescape_plain q body : forallb (plain_for q) body = true -> unescape_cps body = body.
@@ -539,7 +603,7 @@ Section QueryExec.
   Lemma exec_bq input p b rest ps toks cps bg : bq_ok b = true -> bq_okp b = true -> skipn p input = bq_text b ++ rest ->
     exists cps' b', execute (bq_tokens p b ++ toks) input cps bg (mk ps) = execute toks input cps' b' (mk (ps ++ [IQuery (bq_query b)])).
   Proof.
-    intros Hb Hp Hin. destruct b as [i|i|i o lit|i ne l|j|j|i o j|i ne j|i body|lit o i]; cbn [bq_ok bq_okp bq_text bq_tokens bq_query] in *.
+    intros Hb Hp Hin. destruct b as [i|i|i o lit|i ne l|j|j|i o j|i ne j|i body|lit o i|l ne i]; cbn [bq_ok bq_okp bq_text bq_tokens bq_query] in *.
     - set (L := List.length (render_steps i)).
       replace (([TAct 38] ++ inner_tokens p i ++ [TAct 39; TText p (p + 1 + L); TAct 27]) ++ toks)
         with ([TAct 38] ++ inner_tokens p i ++ [TAct 39] ++ ([TText p (p + 1 + L); TAct 27] ++ toks))
@@ -858,6 +922,58 @@ Section QueryExec.
       assert (E26 : forall c0 b0, exec_action 26 c0 b0 (mk (ps ++ [IQuery (cmp_query cfg i (mirror_op o) f)])) = AOk (mk (ps ++ [IQuery (cmp_query cfg i (mirror_op o) f)]))).
       { intros c0 b0. cbn [Actions.exec_action]. rewrite pop_mk. cbn [abind]. destruct o; reflexivity. }
       rewrite E26. cbn [abind]. eexists _, _. reflexivity.
+    - (* 'text' == @ steps, true != @ steps, null == @ steps: the operands are exchanged *)
+      apply andb_true_iff in Hb. destruct Hb as [Hb Hl]. apply andb_true_iff in Hb. destruct Hb as [Hs Hvg]. apply negb_true_iff in Hvg.
+      set (L := List.length (render_steps i)). set (M := List.length (litv_text l)).
+      unfold left43_tokens. fold L M.
+      assert (Hin' : skipn p input = litv_text l ++ (if ne then [33; 61] else [61; 61]) ++ 64 :: render_steps i ++ rest)
+        by (rewrite Hin; rewrite <- !app_assoc; cbn [app]; rewrite <- ?app_assoc; reflexivity).
+      replace ((litv_tokens p l ++ [TAct 35] ++ ([TAct 38] ++ inner_tokens (p + M + 2) i ++ [TAct 39; TText (p + M + 2) (p + M + 2 + 1 + L); TAct 37]) ++
+                [TAct (if ne then 29%nat else 28%nat)] ++ [TText p (p + (M + 2 + 1 + L)); TAct 26]) ++ toks)
+        with (litv_tokens p l ++ TAct 35 :: ([TAct 38] ++ inner_tokens (p + M + 2) i ++ [TAct 39] ++
+              ([TText (p + M + 2) (p + M + 2 + 1 + L); TAct 37; TAct (if ne then 29%nat else 28%nat); TText p (p + (M + 2 + 1 + L)); TAct 26] ++ toks)))
+        by (repeat (progress (cbn [app]) || rewrite <- app_assoc); reflexivity).
+      assert (Elit : exists c1 b1, forall toks1,
+                execute (litv_tokens p l ++ TAct 35 :: toks1) input cps bg (mk ps) =
+                execute toks1 input c1 b1 (mk (ps ++ [ICParam (CP (PqLit (litv_value l)) true)]))).
+      { destruct l as [q body|b0 sp|sp]; cbn [litv_tokens litv_value app Actions.execute].
+        - assert (Eb : sub_list input (p + 1) (p + 1 + List.length body) = body).
+          { pose proof (sub_at input p 1 [q] body ([q] ++ (if ne then [33; 61] else [61; 61]) ++ 64 :: render_steps i ++ rest)) as H.
+            apply H; [|reflexivity]. rewrite Hin'. cbn [litv_text app]. rewrite <- !app_assoc. cbn [app]. reflexivity. }
+          rewrite Eb. eexists _, _. intros toks1.
+          assert (E4 : forall b1 st, exec_action (if q =? 39 then 43%nat else 44%nat) body b1 st = AOk (push (IStr (text_of (unescape_cps body))) st)).
+          { intros b1 st. destruct (q =? 39); cbn [Actions.exec_action]; reflexivity. }
+          rewrite E4. cbn [abind].
+          change (push (IStr (text_of (unescape_cps body))) (mk ps)) with (mk (ps ++ [IStr (text_of (unescape_cps body))])).
+          cbn [Actions.exec_action]. rewrite pop_mk. cbn [abind literal_of]. reflexivity.
+        - eexists _, _. intros toks1. destruct b0; cbn [litv_tokens app Actions.execute Actions.exec_action abind];
+            (match goal with |- context [push ?x (mk ?l0)] => change (push x (mk l0)) with (mk (l0 ++ [x])) end); rewrite pop_mk; reflexivity.
+        - eexists _, _. intros toks1. cbn [Actions.exec_action abind].
+          (match goal with |- context [push ?x (mk ?l0)] => change (push x (mk l0)) with (mk (l0 ++ [x])) end). rewrite pop_mk. reflexivity. }
+      destruct Elit as (c1 & b1 & Elit). rewrite Elit.
+      assert (Hin2 : skipn (p + M + 2) input = 64 :: render_steps i ++ rest).
+      { pose proof (skipn_next input p (litv_text l ++ (if ne then [33; 61] else [61; 61])) (64 :: render_steps i ++ rest)) as H. rewrite app_length in H. fold M in H.
+        assert (E2 : List.length (if ne then [33; 61] else [61; 61]) = 2%nat) by (destruct ne; reflexivity). rewrite E2 in H.
+        replace (p + (M + 2))%nat with (p + M + 2)%nat in H by lia.
+        apply H. rewrite Hin', <- app_assoc. reflexivity. }
+      rewrite (exec_operand input (p + M + 2) i rest (ps ++ [ICParam (CP (PqLit (litv_value l)) true)]) _ _ _ Hs Hin2). cbn [app Actions.execute].
+      assert (E37 : forall c0 b0, exec_action 37 c0 b0 (mk ((ps ++ [ICParam (CP (PqLit (litv_value l)) true)]) ++ [IPQ (filter_pq cfg i); IBool false])) =
+                                 AOk (mk ((ps ++ [ICParam (CP (PqLit (litv_value l)) true)]) ++ [ICParam (cmp_left cfg i)]))).
+      { intros c0 b0. cbn [Actions.exec_action].
+        change ((ps ++ [ICParam (CP (PqLit (litv_value l)) true)]) ++ [IPQ (filter_pq cfg i); IBool false])
+          with ((ps ++ [ICParam (CP (PqLit (litv_value l)) true)]) ++ [IPQ (filter_pq cfg i)] ++ [IBool false]).
+        rewrite app_assoc, pop_mk. cbn [abind]. rewrite pop_mk. cbn [abind]. unfold cmp_left, filter_pq. rewrite (operand_vg cfg), Hvg. reflexivity. }
+      rewrite E37. cbn [abind].
+      assert (Eop : forall c0 b0, exec_action (if ne then 29%nat else 28%nat) c0 b0 (mk ((ps ++ [ICParam (CP (PqLit (litv_value l)) true)]) ++ [ICParam (cmp_left cfg i)])) =
+                                 AOk (mk (ps ++ [IQuery (if ne then QNot (lit_cmp i l) else lit_cmp i l)]))).
+      { intros c0 b0. assert (Epc : push_compare_eq (CP (PqLit (litv_value l)) true) (cmp_left cfg i) (mk ps) = mk (ps ++ [IQuery (lit_cmp i l)]))
+          by (destruct l; unfold cmp_left, filter_pq; reflexivity).
+        destruct ne; cbn [Actions.exec_action]; unfold two_operands, pop_cparam; rewrite pop_mk; cbn [abind]; rewrite pop_mk; cbn [abind]; rewrite Epc; [|reflexivity].
+        unfold pop_query. rewrite pop_mk. reflexivity. }
+      rewrite Eop. cbn [abind].
+      assert (E26 : forall c0 b0 q, (q = lit_cmp i l \/ q = QNot (lit_cmp i l)) -> exec_action 26 c0 b0 (mk (ps ++ [IQuery q])) = AOk (mk (ps ++ [IQuery q]))).
+      { intros c0 b0 q [E|E]; subst q; cbn [Actions.exec_action]; rewrite pop_mk; reflexivity. }
+      rewrite E26 by (destruct ne; auto). cbn [abind]. eexists _, _. reflexivity.
   Qed.
 
   Definition conj_query (c : list bq) : query :=
